@@ -12,6 +12,41 @@ def nontrivial_read(rq, resp):
     return ' # EV - ' not in resp or not resp.startswith('char:0')
 
 PROPS = {
+    'C04': {
+        'lean': ['Purr.Props.C04'],
+        'suites': [
+            {'name': 'read', 'fields': ['V'], 'nontrivial': nontrivial_read},
+            {'name': 'atom', 'fields': ['V', 'EV'], 'nontrivial': nontrivial_read},
+        ],
+        'rule': 'read: corpus, every string <= 4 over a 14-letter SMILES alphabet, <= 6 over 6 letters, <= 5 over 8 bracket letters (thorough one '
+                'longer), grammar-directed random strings and single-character mutations, multi-byte characters; atom: every member of each finite '
+                'token family and its one-character corruptions (exhaustive). Each string is also run through Writer, Builder and Builder+Trace '
+                '(follower independence). non-trivial = not refused at position 0',
+        'assumptions': ASSUME_COMMON,
+    },
+    'C05': {
+        'lean': ['Purr.Props.C05'],
+        'suites': [
+            {'name': 'read', 'fields': ['V'], 'nontrivial': lambda rq, resp: not resp.startswith('ok')},
+            {'name': 'atom', 'fields': ['V'], 'nontrivial': lambda rq, resp: not resp.startswith('ok')},
+        ],
+        'rule': 'the same string sets as C04; only the verdict (Character(i) / EndOfLine) is compared. non-trivial = refused strings',
+        'assumptions': ASSUME_COMMON,
+    },
+    'C19': {
+        'lean': ['Purr.Props.C19'],
+        'suites': [
+            {'name': 'depth', 'fields': ['V', 'D'], 'nontrivial': lambda rq, resp: True},
+            {'name': 'read', 'fields': ['V', 'D'], 'nontrivial': nontrivial_read},
+        ],
+        'soak': {'quick': [('chain', 200000), ('dots', 200000), ('branches', 100000), ('ringlist', 200000), ('ringchain', 290)],
+                 'thorough': [('chain', 1000000), ('dots', 1000000), ('branches', 500000), ('ringlist', 1000000), ('ringchain', 290), ('digits', 300000)]},
+        'rule': 'depth: six size families with constant nesting (chain, dot list, branches on one atom, dot-separated rings, ring chain, ring digit '
+                'list) at 1..5000 (thorough 30000) atoms and two nested families up to depth 200: the activation counter of the hook is compared '
+                'with the model depth on every string; read: the same comparison on the S-read strings; soak: read -> build -> walk -> write -> '
+                're-read of each family at 10^5..10^6 atoms in a child process, in the main thread and in a 2 MiB thread, exit status observed',
+        'assumptions': ASSUME_COMMON + ['frame size per activation is a measured constant, not part of the theorem'],
+    },
     'C06': {
         'lean': ['Purr.Props.C06'],
         'suites': [
